@@ -25,7 +25,7 @@ class TooBig(Exception):
     pass
 
 
-MAX_TERMS = 400_000
+MAX_TERMS = 150_000
 
 
 def p_const(c) -> Poly:
@@ -82,7 +82,7 @@ def m_mul(a: Mono, b: Mono) -> Mono:
 def p_mul_raw(p: Poly, q: Poly) -> Poly:
     if not p or not q:
         return {}
-    if len(p) * len(q) > MAX_TERMS * 8:
+    if len(p) * len(q) > MAX_TERMS * 4:
         raise TooBig()
     r: Poly = {}
     for m1, c1 in p.items():
@@ -132,6 +132,7 @@ class Rat:
 
 class Ring:
     def __init__(self):
+        self.deadline: Optional[float] = None  # wall-clock limit for one normalisation (TooBig when exceeded)
         self.memo: Dict[int, Rat] = {}
         self.atoms: Dict[tuple, int] = {}  # atom key -> atom index
         self.atom_expr: List[Expr] = []
@@ -310,11 +311,15 @@ class Ring:
         if r is not None:
             return r
         stack = [e]
+        import time as _time
+
         while stack:
             x = stack[-1]
             if x.id in memo:
                 stack.pop()
                 continue
+            if self.deadline is not None and _time.time() > self.deadline:
+                raise TooBig()
             op = x.op
             if op in ("add", "mul", "div"):
                 kids = [a for a in x.args if a.id not in memo]
